@@ -81,7 +81,7 @@ Fixpoint first_diff (l l' : list gassign) : nat :=
 
 (* [defined; init equal; body equal; mutually_exclusive flags as recognised; wf hypothesis] *)
 Definition pass_if_check (k : nat) (p : prog) (exp : flatprog) (flags : list bool) : list bool :=
-  match if_flatten_prog k p with
+  match if_flatten_prog_old k p with
   | Some (fp, _) =>
       [true; list_eqn ga_eqn (fp_init fp) (fp_init exp); list_eqn ga_eqn (fp_body fp) (fp_body exp);
        list_eqn Bool.eqb (flags_block (p_init p) ++ flags_block (p_body p)) flags; wf_prog p]
@@ -90,7 +90,7 @@ Definition pass_if_check (k : nat) (p : prog) (exp : flatprog) (flags : list boo
 
 (* (model init length, Polar init length, first differing index), same for the body, final counter *)
 Definition pass_if_diag (k : nat) (p : prog) (exp : flatprog) : list nat :=
-  match if_flatten_prog k p with
+  match if_flatten_prog_old k p with
   | Some (fp, k') =>
       [List.length (fp_init fp); List.length (fp_init exp); first_diff (fp_init fp) (fp_init exp);
        List.length (fp_body fp); List.length (fp_body exp); first_diff (fp_body fp) (fp_body exp); k']
